@@ -173,6 +173,8 @@ def run(F, tier, res):
             return True
         return v['fn'] in boundary or any(f in {p for p, _ in resetters} for f in v['frames'])
     E.add_e1(res, R, {'ORD-W', 'ORD-B', 'EOF', 'DROP'}, 'C10', fn_filter=is_boundary)
+    # the highlighter may not be replaced while lines of the previous section are still buffered (they would be coloured by the next file's language)
+    E.add_e1(res, R, {'HL-SWAP'}, 'C10')
     nb = sum(1 for k in R['N']['event_sites'].get('DIRECT_W', []) if any(b in k for b in boundary))
     res.rule('C10.BOUNDARY', nb + R['N']['summary']['exit_states'], 8,
              'direct-write sites inside the section-boundary functions (%d) + abstract end-of-input states (%d)' % (nb, R['N']['summary']['exit_states']),
